@@ -65,11 +65,11 @@ CLAIMS = {
              'the LUT value of the operands\' final values -- also when transitions are dropped by overflow -- starts at the LUT value of '
              'their initial values and yields a well-formed waveform within capacity (so the facts compose along op lists). The '
              'transcription, SimOps and capture are tied to the code by comparing the whole waveform memory, abuf and s[3..10] on '
-             'generated circuits; an independent Boolean evaluator is the oracle. FLAT MEMORY (C03_flat_refines): when every op\'s output region lies inside the memory and is disjoint from the region of every other tracked index (checked per generated case by the proved-sound regions_ok_b; what the allocator gives without c_reuse), c_prop on the flat waveform memory is total and the region of every index, read up to its terminator, IS the line-level waveform, and abuf is the line-level accumulation; the line-level semantics itself (wexec, wacc) is now compared with the real waveform memory / abuf on every generated case.',
+             'generated circuits; an independent Boolean evaluator is the oracle. FLAT MEMORY (C03_flat_refines): when every op\'s output region lies inside the memory and is disjoint from the region of every other tracked index (checked per generated case by the proved-sound regions_ok_b; what the allocator gives without c_reuse), c_prop on the flat waveform memory is total and the region of every index, read up to its terminator, IS the line-level waveform, and abuf is the line-level accumulation; the line-level semantics itself (wexec, wacc) is now compared with the real waveform memory / abuf on every generated case. MEMORY LEVEL, ALL OPTIONS (Proofs/WaveRegion.v, WaveSimGlue.v): the region certificate is now DERIVED from the allocator invariant for every build() result and all four c_reuse x strip_forks combinations (C03_build_regions_all: an op\'s output region never overlaps a region that is pinned or still to be read), and the compared memory-level model wsim_case is proved total and to capture, at every s_node with a data line, the capture of the UNSTRIPPED line-level waveform (C03_wavesim_model_correct; with strip_forks under zero delay on fork inputs and monotone stems, the side condition outside which D26 is the refutation); every hypothesis has a proved-sound checker evaluated on every generated case and the theorem\'s prediction is compared with the implementation\'s s[3..10] / abuf. Restated for the compared model: C03_wavesim_model_settles.',
         design_ref='5/C03',
         note='Modelled not verified: _wave_eval, s_to_c, c_to_s, SimOps (hand transcriptions). Time is modelled as extended integers: '
              'float32/float64 arithmetic is assumed exact on the integer grid with absorbing sentinels; off-grid rounding is not modelled. '
-             'Flat-memory refinement is proved for c_reuse off / no fork stripping under the per-case region certificate; with c_reuse or strip_forks the flat memory is tied by correspondence only.'),
+             'Flat-memory refinement holds for all four option combinations (region certificate derived for every build() result); with strip_forks the accumulated activity is characterised through the alias run of the stripped schedule only (not yet as sums over the unstripped lines). Every round of the campaign is also repeated on a simulator object that has already simulated another batch (results must equal the fresh simulator).'),
     'C04': dict(
         technique='Coq proofs: per-gate emit-is-sum, shift/scale equivariance (simulation relation), strict monotonicity; circuit-level STA window, shift/scale equivariance and monotonicity over any op list; whole-memory correspondence; STA/shift/scale/emit-sum/monotonicity oracle incl. single-gate stress',
         text='Proof (full at op-list level on the exact time grid). PER GATE (any LUT, operands, delays): every emitted time is an operand '
@@ -87,9 +87,9 @@ CLAIMS = {
              '8-valued algebra yields a plain 0/1 then the primitive is constant on the cube spanned by the active operands (exhaustive). '
              '(2) For any gate evaluation: if the LUT is constant on the cube spanned by the operands that have finite transitions, no '
              'transition is produced. (3) init/final of both simulators equal the Boolean function of init/final (C02, C03). Both '
-             'simulators are run on the same circuits/stimuli and compared including the activity bit.',
+             'simulators are run on the same circuits/stimuli and compared including the activity bit. MEMORY LEVEL: C05_wavesim_model_predicted restates the prediction for the compared flat-memory model under every c_reuse x strip_forks combination (via C03_wavesim_model_correct).',
         design_ref='5/C05',
-        note='As C02 and C03 (line-level semantics; memory map by certificate and correspondence).'),
+        note='As C02 and C03 (memory level proved for all option combinations; strip_forks under its side condition).'),
     'C06': dict(
         technique='Coq proofs: memory-level invariance of the observed slots under c_reuse and strip_forks for all netlists (every option combination delivers the unstripped line-level value), launcher covers every instance once (model tied to the real MockCuda), lane independence, release-order irrelevance, multi-cycle strip invariance; differential execution over all option pairs',
         text='Proof (option clauses full at logic and timing level; code-path clause by differential execution). PROVED for every well-formed, combinationally acyclic netlist of known primitives, every stimulus, any value domain: '
@@ -102,7 +102,7 @@ CLAIMS = {
              'TIMING level: a zero-delay buffer is the identity on strictly increasing waveforms that fit the capacity (C06_buf_zero_delay_identity; overflow case characterised; '
              'refuted for a non-monotone waveform: D26 at gate level), hence for every well-formed acyclic netlist with zero delay on fork inputs the stripped schedule (operands read through the stem alias '
              'with the delay row of the original operand line, Model/WaveStripModel.v) equals the unstripped one at every line whenever the stem waveforms are strictly increasing and fit '
-             '(C06_wave_strip_forks_irrelevant), in particular for polarity-free delays and non-shrinking capacities with no further hypothesis (C06_wave_strip_forks_polfree); the general statement is '
+             '(C06_wave_strip_forks_irrelevant; at MEMORY level C06_wavesim_options_irrelevant: any two c_reuse x strip_forks combinations give the compared timing model the same captures), in particular for polarity-free delays and non-shrinking capacities with no further hypothesis (C06_wave_strip_forks_polfree); the general statement is '
              'REFUTED by a machine-checked witness with a polarity-dependent delay (C06_wave_strip_nonmonotone_refuted = known finding D26). Delay-dataset selection per lane or globally (modes 0/1) equals '
              'simulating with the selected dataset alone for any op list (C06_dataset_selection[_lanes]). The alias semantics and the selection function are compared with the real waveform memory '
              'of WaveSim(strip_forks=True) / multi-dataset runs on generated cases. NOT theorems (decided by running the implementation against itself on every generated configuration): '
@@ -138,7 +138,7 @@ CLAIMS = {
         note='Modelled not verified: sim.Heap and SimOps.__init__ are hand transcriptions tied by exact correspondence (tables after every step; ops, levels, c_locs, c_caps, c_len for all option settings).'),
     'C13': dict(
         technique='Coq proofs: returned activity counts = edges of the stored waveform; overflow-mark rule and its closure over op lists; accumulated switching activity = weighted edge sums for any op list; capture summary at circuit level and on the flat memory; whole-memory and line-level correspondence; recount oracle with generator-owned a_ctrl',
-        text='Proof (full at op-list level; flat memory under a per-case region certificate). PER GATE for all inputs: (nrise, nfall) equal the rising/falling transitions of the '
+        text='Proof (full at op-list level and at memory level for all option combinations). PER GATE for all inputs: (nrise, nfall) equal the rising/falling transitions of the '
              'waveform stored; the overflow mark is set iff this evaluation dropped transitions or an operand carries the mark; no mark => '
              'identical to the result with any larger capacity. CAPTURE: the six summary values (initial, final, earliest, latest, value before T, '
              'overflow flag) for every well-formed waveform. CIRCUIT LEVEL (any op list): the accumulator contents equal the initial contents plus the '
@@ -148,7 +148,7 @@ CLAIMS = {
              'signal of the op list has the six facts with initial/final = Boolean evaluation (C13_circuit_capture); on the flat memory a PPO slot '
              'captures the line-level waveform of the line it aliases (C13_flat_capture). Tied to the code by whole-memory correspondence, by the '
              'line-level correspondence (wexec / wacc vs the real memory / abuf) and by an oracle that recounts from the stored waveforms with the '
-             'generator-owned a_ctrl table (row of the LINE an op writes), checks every op carries that row, CPU and GPU capture, rerun with capacity 64.',
+             'generator-owned a_ctrl table (row of the LINE an op writes), checks every op carries that row, CPU and GPU capture, rerun with capacity 64. MEMORY LEVEL, ALL OPTIONS: C13_wavesim_model_capture (the compared model captures the six facts of the unstripped line-level waveform under every option combination) and C13_wavesim_model_activity (abuf = wacc; under acc_once the weighted transitions of the final waveforms). The capture oracle reads the observed waveform through the LINE and tests that the output slot is its exact alias (location and capacity).',
         design_ref='5/C13',
         note='As C03; capture with sd>0 is outside the claim; flat-memory statements need the region certificate (c_reuse off, no fork stripping).'),
     'C17': dict(
